@@ -18,7 +18,6 @@ package main
 // Then, at store level, two SetConfirms on one stable block are released by a start barrier.
 
 import (
-	"bytes"
 	"fmt"
 	"sync"
 	"sync/atomic"
@@ -41,26 +40,7 @@ func c19ConfirmRaceChild(c *Ctx) {
 	h := &c19Hammer{res: &c19HResult{Rounds: c.N, Counts: map[string]int{}}, out: c.Out, rnd: c.Rnd, seen: map[string]bool{}}
 	h.flush()
 	for r := 0; r < c.N; r++ {
-		done := make(chan bool, 1)
-		go func() {
-			defer func() {
-				if x := recover(); x != nil {
-					h.fail(r, "c19/panic", "confirm-race round panicked: "+firstLine(fmt.Sprint(x)))
-					done <- true
-				}
-			}()
-			h.confirmRound(r)
-			done <- true
-		}()
-		select {
-		case <-done:
-			h.res.Completed++
-		case <-time.After(60 * time.Second):
-			h.res.Inconclusive++
-			h.flush()
-			return
-		}
-		h.flush()
+		h.runRound("c19-confirmrace", r, func() { h.confirmRound(r) })
 	}
 	h.res.Done = true
 	h.flush()
@@ -110,7 +90,6 @@ func (h *c19Hammer) confirmRound(round int) {
 	}
 	selfKey := w.DeputyKeys[selfIdx]
 	deputynode.SetSelfNodeKey(selfKey)
-	selfID := append([]byte{}, deputynode.GetSelfNodeID()...)
 	consensus.VerifSetSigCache(common.Hash{}, nil)
 	a := w.NewNode(c19CRDeputies)
 	defer a.Close()
@@ -146,7 +125,7 @@ drain:
 	}
 	if unconfirmed != runLen {
 		// the precondition of the schedule does not hold: inconclusive sample, counted
-		h.count("confirmrace:round-skipped(run-already-confirmed-by-node)", 1)
+		h.fail(round, "c19/harness/scenario-guarantee-broken", fmt.Sprintf("confirm-race: the node confirmed %d of the %d run blocks on insertion although X1 was signed first (the scenario guarantees an unconfirmed run)", runLen-unconfirmed, runLen))
 		return
 	}
 	// remote deputies for a block: neither its miner nor A
@@ -190,7 +169,7 @@ drain:
 		panic(fmt.Sprintf("confirm-race scenario: InsertConfirms(tip): %v", err))
 	}
 	if a.BC.StableBlock().Hash() != tip.Hash() {
-		h.count("confirmrace:round-skipped(tip-not-stable)", 1)
+		h.fail(round, "c19/harness/scenario-guarantee-broken", "confirm-race: the tip did not become stable after the packet with 9 valid confirms")
 		return
 	}
 	for i, s := range tipSigs {
@@ -235,8 +214,7 @@ wait:
 	for len(own) < runLen-1 {
 		select {
 		case p := <-feed:
-			id, err := p.SignInfo.RecoverNodeID(p.Hash)
-			if err != nil || !bytes.Equal(id, selfID) {
+			if !h.c19OwnSig(round, "own confirm broadcast by batchConfirmStable", selfKey, p.Hash, p.SignInfo[:]) {
 				h.fail(round, "c19/emitted-invalid-confirm", fmt.Sprintf("confirm on the feed for block %d:%x is not this node's signature over that hash", p.Height, p.Hash[:4]))
 				continue
 			}
